@@ -105,7 +105,7 @@ type valOpts struct {
 
 var allArms = []string{"str", "int", "uint", "bool", "bytes", "f32", "f64", "dec", "list", "json", "jsonietf"}
 
-var strVals = []string{"", "up", "DOWN", "x y", "café", "a,b", "[1 2]", "true", "42", "tab\there", `q"uote`, `back\slash`}
+var strVals = []string{"", "up", "UP", "DOWN", "x y", "café", "a,b", "[1 2]", "true", "42", "tab\there", `q"uote`, `back\slash`}
 var jsonVals = []string{`"up"`, `12`, `true`, `{"a":1}`, `[1,2]`, `1.5`, `{"k":"v","n":[1,2]}`, `null`}
 
 func genVal(r *vh.Rand, o valOpts) TV {
@@ -162,6 +162,71 @@ func genVal(r *vh.Rand, o valOpts) TV {
 		return TV{K: "any", S: "x"}
 	}
 	return TV{K: "str", S: "?"}
+}
+
+// nearVal returns a value that differs from v as little as possible.
+func nearVal(r *vh.Rand, v TV) TV {
+	switch v.K {
+	case "str":
+		if v.S == "" {
+			return TV{K: "str", S: " "}
+		}
+		b := []byte(v.S)
+		i := r.Intn(len(b))
+		switch {
+		case b[i] >= 'a' && b[i] <= 'z', b[i] >= 'A' && b[i] <= 'Z':
+			b[i] ^= 0x20 // flip the case of one letter
+		case b[i] < 0x80:
+			b[i] = 'x'
+		default:
+			return TV{K: "str", S: v.S + "x"}
+		}
+		return TV{K: "str", S: string(b)}
+	case "int":
+		if v.I == math.MaxInt64 {
+			return TV{K: "int", I: v.I - 1}
+		}
+		return TV{K: "int", I: v.I + 1}
+	case "uint":
+		if v.U == math.MaxUint64 {
+			return TV{K: "uint", U: v.U - 1}
+		}
+		return TV{K: "uint", U: v.U + 1}
+	case "bool":
+		return TV{K: "bool", B: !v.B}
+	case "bytes":
+		return TV{K: "bytes", S: v.S + "A"}
+	case "f32":
+		f := math.Float32frombits(uint32(v.U))
+		if f != f || math.IsInf(float64(f), 0) || f == 0 {
+			return TV{K: "f32", U: uint64(math.Float32bits(1))}
+		}
+		return TV{K: "f32", U: v.U ^ 1}
+	case "f64":
+		f := math.Float64frombits(v.U)
+		if f != f || math.IsInf(f, 0) || f == 0 {
+			return TV{K: "f64", U: math.Float64bits(1)}
+		}
+		return TV{K: "f64", U: v.U ^ 1}
+	case "dec":
+		if r.Chance(1, 2) && v.Prec < 10 {
+			return TV{K: "dec", I: v.I, Prec: v.Prec + 1}
+		}
+		return TV{K: "dec", I: v.I + 1, Prec: v.Prec}
+	case "list":
+		l := append([]TV{}, v.L...)
+		if len(l) > 0 && r.Chance(1, 2) {
+			l[len(l)-1] = nearVal(r, l[len(l)-1])
+		} else {
+			l = append(l, TV{K: "int", I: 1})
+		}
+		return TV{K: "list", L: l}
+	case "json":
+		return TV{K: "jsonietf", S: v.S}
+	case "jsonietf":
+		return TV{K: "json", S: v.S}
+	}
+	return v
 }
 
 type streamOpts struct {
@@ -250,6 +315,8 @@ func genStream(r *vh.Rand, schema []sleaf, o streamOpts, ts *int64) []*Noti {
 			var v TV
 			if old, ok := last[l.key()]; ok && r.Chance(1, 4) {
 				v = old // unchanged value: suppressed by the cache
+			} else if ok && r.Chance(1, 3) {
+				v = nearVal(r, old) // almost the same value: must not be suppressed
 			} else {
 				v = genVal(r, o.vals)
 			}
@@ -386,9 +453,17 @@ func genScenario(r *vh.Rand, family string, thorough bool) *Case {
 		so.n += 10
 	}
 	// requests: shared or distinct
-	c.Requests = []ReqCfg{{Name: "all", Prefix: &GPath{Origin: "openconfig"}, Paths: []GPath{{}}}}
-	if family == "multi" || r.Chance(1, 2) {
-		c.Requests = append(c.Requests, ReqCfg{Name: "ifs", Paths: []GPath{{Elem: []PElem{{Name: "interfaces"}}}, {Elem: []PElem{{Name: "a"}, {Name: "b", Keys: [][2]string{{"k", "v"}}}}}}})
+	pool0 := []ReqCfg{
+		{Name: "all", Prefix: &GPath{Origin: "openconfig"}, Paths: []GPath{{}}},
+		{Name: "ifs", Paths: []GPath{{Elem: []PElem{{Name: "interfaces"}}}, {Elem: []PElem{{Name: "a"}, {Name: "b", Keys: [][2]string{{"k", "v"}}}}}}},
+		{Name: "pfx", Prefix: &GPath{Origin: "foo", Target: "stale-name", Elem: []PElem{{Name: "x"}, {Name: "y", Keys: [][2]string{{"k", "v"}}}}}, Paths: []GPath{{Elem: []PElem{{Name: "z"}}}}},
+		{Name: "old", Prefix: &GPath{Element: []string{"a", "b"}}, Paths: []GPath{{Element: []string{"c"}}}},
+	}
+	c.Requests = []ReqCfg{pool0[0]}
+	for _, rq := range pool0[1:] {
+		if family == "multi" || r.Chance(1, 2) {
+			c.Requests = append(c.Requests, rq)
+		}
 	}
 	names := []string{}
 	pool := []string{"dev1", "dev2", "r3.example.net", "sw-4"}
@@ -396,7 +471,10 @@ func genScenario(r *vh.Rand, family string, thorough bool) *Case {
 	for i := 0; i < nt; i++ {
 		nm := pool[i]
 		names = append(names, nm)
-		req := c.Requests[r.Intn(len(c.Requests))].Name
+		req := c.Requests[(i+int(r.Intn(2)))%len(c.Requests)].Name
+		if i > 0 && i < len(c.Requests) {
+			req = c.Requests[i].Name // every request of the configuration gets used
+		}
 		c.Targets = append(c.Targets, TargetCfg{Name: nm, Request: req})
 		if family == "multi" && i == nt-1 {
 			continue // configured, silent target
